@@ -1654,7 +1654,8 @@ pub fn check_text(text: &str, tok_offs: &[usize], label: &str, detectors: &[Dete
             }
             let toks = line_toks.get(&line).cloned().unwrap_or_default();
             // is some token of that line strictly inside a known construct's span?
-            let inside = verdicts.iter().find(|x| toks.iter().any(|&o| o > x.span.0 && o < x.span.1));
+            // (the innermost one, if constructs nest)
+            let inside = verdicts.iter().filter(|x| toks.iter().any(|&o| o > x.span.0 && o < x.span.1)).min_by_key(|x| x.span.1 - x.span.0);
             // what starts on that line?
             let starts: Vec<&'static str> = tree.nodes.iter().filter(|n| n.class != Class::Aux && toks.contains(&n.start)).map(|n| n.kind).collect();
             // a detector that judges a container (contract, struct) may point at the container or at one of its
@@ -1682,7 +1683,11 @@ pub fn check_text(text: &str, tok_offs: &[usize], label: &str, detectors: &[Dete
             match (mode, inside) {
                 // (C02's anchors name "each detector chooses which node's location to report" as part of the mechanism: the
                 // flagged construct is the documented one, so neither tolerance is applied in location mode)
-                (Mode::LocationOnly, Some(x)) if false && (member_of_container(x) || sub_construct(x)) => {}
+                (Mode::LocationOnly, Some(x)) if false && member_of_container(x) => {}
+                // a gray form is one the documentation does not describe, so it does not say which of its nodes "the flagged
+                // construct" is either (a build that reports `revert("...")` may point at the statement or at the message):
+                // inside a gray construct every line on which a node of it begins is admissible
+                (Mode::LocationOnly, Some(x)) if !x.must && sub_construct(x) => {}
                 (Mode::LocationOnly, Some(x)) => res.violations.push(Violation {
                     site: format!("{}:location:{}", d.name, x.kind),
                     input: text.to_string(),
